@@ -636,6 +636,7 @@ var latencies []time.Duration
 // executions, and a rate-limited case that passes needs real time. Once the shrink budget since the
 // first violation of the running property is spent, further candidates are not executed.
 var firstViolation time.Time
+var firstTiming bool
 
 const shrinkBudget = 20 * time.Second
 
@@ -649,6 +650,9 @@ func check(t vkit.TB, c Case) {
 	if !firstViolation.IsZero() && time.Since(firstViolation) > shrinkBudget {
 		return
 	}
+	if firstTiming && !firstViolation.IsZero() && time.Since(firstViolation) > shrinkBudget/3 {
+		return // every failing candidate of a bounded-time violation costs the whole bound
+	}
 	notePending(c)
 	t0 := time.Now()
 	f, o := runCase(c)
@@ -656,7 +660,7 @@ func check(t vkit.TB, c Case) {
 		b, _ := json.Marshal(c)
 		fmt.Fprintf(os.Stderr, "C02_DEBUG slow case %v failure=%v inconclusive=%v: %s\n", d, f, o.inconclusive, b)
 	}
-	if f != nil && f.timing {
+	if f != nil && f.timing && firstViolation.IsZero() {
 		// bounded-time expectations are re-run once before they are reported
 		vkit.Class("timing-rerun")
 		f, o = runCase(c)
@@ -667,6 +671,7 @@ func check(t vkit.TB, c Case) {
 	if f != nil {
 		if firstViolation.IsZero() && !vkit.IsKnown(f.key) {
 			firstViolation = time.Now()
+			firstTiming = f.timing
 		}
 		vkit.Violation(t, f.key, f.detail, c)
 		vkit.Case("known:"+f.key, false, "")
@@ -735,9 +740,14 @@ var endingKinds = []string{
 	"bridge-close", "bridge-close",
 }
 
-func genLen(t *rapid.T, label string, max int, limit int64) int {
-	if max <= 0 {
+// genLen draws a payload size <= budget. Ordinary classes stay <= max; the "batch counter" class
+// goes just above 1 MiB in both tiers (constants.BatchUpdateThreshold).
+func genLen(t *rapid.T, label string, max, budget int, limit int64) int {
+	if budget <= 0 {
 		return 0
+	}
+	if max > budget {
+		max = budget
 	}
 	n := 0
 	switch rapid.IntRange(0, 9).Draw(t, label+"Class") {
@@ -756,14 +766,14 @@ func genLen(t *rapid.T, label string, max int, limit int64) int {
 			n = rapid.IntRange(1, 20000).Draw(t, label)
 		}
 	case 5:
-		n = 1024*1024 + rapid.IntRange(1, 70000).Draw(t, label) // batch counter threshold (thorough sizes only)
+		n = 1024*1024 + rapid.IntRange(1, 70000).Draw(t, label) // crosses the 1 MiB batch-counter threshold
 	case 6, 7:
 		n = rapid.IntRange(1, max).Draw(t, label)
 	default:
 		n = rapid.IntRange(1, 40000).Draw(t, label)
 	}
-	if n > max {
-		n = max
+	if n > budget {
+		n = budget
 	}
 	return n
 }
@@ -803,7 +813,7 @@ func genCase(t *rapid.T, limits []int64) Case {
 	maxLen := vkit.Pick(300*1024, 4*1024*1024)
 	maxIter := vkit.Pick(30000, 100000)
 	c := Case{Limit: rapid.SampledFrom(limits).Draw(t, "limit")}
-	budget := 2 * maxLen
+	budget := 2 * vkit.Pick(1200*1024, 4*1024*1024)
 	if c.Limit > 0 {
 		// keep the token-bucket time of a case <= ~1.5 s (most far below)
 		extra := rapid.SampledFrom([]int64{0, 100, 250, 500, 1500}).Draw(t, "limitMillis")
@@ -811,18 +821,12 @@ func genCase(t *rapid.T, limits []int64) Case {
 			budget = b
 		}
 	}
-	min := func(a, b int) int {
-		if a < b {
-			return a
-		}
-		return b
-	}
 	if rapid.Bool().Draw(t, "abFirst") {
-		c.LenAB = genLen(t, "lenAB", min(maxLen, budget), c.Limit)
-		c.LenBA = genLen(t, "lenBA", min(maxLen, budget-c.LenAB), c.Limit)
+		c.LenAB = genLen(t, "lenAB", maxLen, budget, c.Limit)
+		c.LenBA = genLen(t, "lenBA", maxLen, budget-c.LenAB, c.Limit)
 	} else {
-		c.LenBA = genLen(t, "lenBA", min(maxLen, budget), c.Limit)
-		c.LenAB = genLen(t, "lenAB", min(maxLen, budget-c.LenBA), c.Limit)
+		c.LenBA = genLen(t, "lenBA", maxLen, budget, c.Limit)
+		c.LenAB = genLen(t, "lenAB", maxLen, budget-c.LenBA, c.Limit)
 	}
 	c.SeedAB = uint64(rapid.IntRange(0, 65535).Draw(t, "seedAB"))
 	c.SeedBA = uint64(rapid.IntRange(0, 65535).Draw(t, "seedBA"))
